@@ -59,6 +59,9 @@ CLAIMED = {
  "C17": ("Bounded model checking of the real DNS decoders (DecodeQuestion, DNSEntry.DecodeAnswers, decodeName) and of the real naming handler (ProcessDNS / DNSFind through frames parsed by the real Session.Parse, ProcessMDNS, ProcessNBNS) on messages written by an independent builder with concrete structure and symbolic label, address, TTL and id bytes: question name, A / AAAA / CNAME / PTR records (compressed, pointer-chained, longest legal name, 127 labels, names beyond the scratch buffer) equal what the builder wrote; nine malformation classes and truncation at every offset are rejected with an error and terminate; mDNS A/AAAA extraction in every section with interleaved unknown / NSEC records; NBNS node status names; NameEntry.Merge and the five Host.Update*Name functions never erase, report a change exactly when an attribute changed and are idempotent, over symbolic attribute strings.",
          "Trusted: go/ssa, gse semantics, z3, the builder in harness/shared/dnsbuild.go. Message structure is concrete per shape (not arbitrary byte strings); golang.org/x/net/dns/dnsmessage is executed symbolically as part of the mDNS/NBNS paths.",
          "DESIGN.md §4 C17", "bounded symbolic execution, SMT-decided differential against an independent message builder; merge algebra over symbolic strings"),
+ "C18": ("Bounded model checking of the real lease persistence code (saveConfig, loadConfig/loadByteArray, Config.New) with gopkg.in/yaml.v2 and the file system replaced by stated models: (a) restart: from every lease table of <= 2 leases (all state x subnet combinations, symbolic ids / MACs / addresses / expiry) the handler constructed from the saved file holds exactly the acknowledged bindings on the right subnet and acknowledges a renewal; (b) damaged file: for an ARBITRARY parsed document (sections missing, foreign LAN, 0..2 arbitrary lease records), an unparsable file or no file, construction does not panic and ends with usable subnets and only allocated, client-identified, home-subnet bindings that occur in the document. PARTIAL: the YAML text level (which truncations / substitutions parse and to what) is not encoded.",
+         "Trusted: go/ssa, gse semantics, z3, the yaml / file models in harness/handlers/dhcp4_spoofer/c18.go (counterexamples are replayed with the real yaml package and real files).",
+         "DESIGN.md §4 C18", "bounded symbolic execution with library models; arbitrary parsed document as over-approximation of file corruption"),
 }
 
 NOT_APPLICABLE = {
